@@ -265,3 +265,8 @@ def run(ctx):
     for rr in ctx.rules:
         if rr.id == "C09.R8":
             rr.id = "C08.R5"
+    from . import c18
+    ctx.guard(c18.rule_r15)          # ordered exchange: a later send must not overtake a blocked one when the buffer grows
+    for rr in ctx.rules:
+        if rr.id == "C18.R15":
+            rr.id = "C08.R7"
